@@ -24,6 +24,7 @@ def pool_hists(seed, tier):
         hs.append([['rainbow', 'aba'], ['apply', R['W'], s, e, True]])
     hs.append([['plain', 'abc'], ['apply', R['R'], 0, 2, True], ['apply', R['B'], 1, 3, True]])
     hs.append([['plain', 'abc'], ['apply', R['o'], 0, 2, True], ['apply', R['q'], 1, 3, True]])     # non-canonical / multi-group texts
+    hs.append([['ctor', 'Stra\xdfe \u0130i', R['W']]])     # characters whose case mapping changes the length, styled to the very end
     hs.append([['plain', 'abcd'], ['apply', R['R'], 0, 2, True], ['apply', R['W'], 0, 3, True], ['apply', R['U'], 0, 2, True]])     # three settings on one character
     hs.append([['plain', 'abcd'], ['apply', R['R'], 0, 4, True], ['apply', R['B'], 1, 4, True], ['apply', R['R'], 2, 3, True]])     # X, Y, X
     hs.append([['plain', 'abc'], ['apply', R['R'], 0, 3, True], ['apply', R['R'], 1, 2, True]])
